@@ -32,6 +32,11 @@ REJECT_SHAPES = [
     ("cross-block-local", "out1: { let a = w2; if (w2.flag) { a = w1 } return a.silentVal }"),
     ("under-condition", "out1: w2.flag ? w2.silentVal : 0"),
     ("in-gadget-member", "font.pointSize: w2.silentVal"),
+    ("link-without-notify", "out1: w2.silentPeer.intVal"),
+    ("link-without-notify-guarded", "out1: w2.silentPeer != null ? w2.silentPeer.intVal : 0"),
+    ("link-without-notify-second-hop", "out1: w2.peer.silentPeer.intVal"),
+    ("link-without-notify-through-local", "out1: { let p = w2.silentPeer; return p.intVal }"),
+    ("link-without-notify-as-value", "outPeer: w2.silentPeer"),
 ]
 REAL_REJECT_SHAPES = [   # QAbstractButton.text, QLabel.text, QSpinBox.minimum have no notify signal in Qt 5
     ("real-button-text", "QLabel { id: r1; text: r2.text }\n        QPushButton { id: r2 }"),
@@ -39,7 +44,7 @@ REAL_REJECT_SHAPES = [   # QAbstractButton.text, QLabel.text, QSpinBox.minimum h
     ("real-spinbox-minimum", "QLabel { id: r1; indent: r2.minimum + 1 }\n        QSpinBox { id: r2 }"),
     ("real-checkable-in-condition", "QLabel { id: r1; wordWrap: r2.checkable && r2.checked }\n        QCheckBox { id: r2 }"),
 ]
-ACCEPT_TWINS = [("const-direct", "out1: w2.constVal + 1"), ("const-chain", "out1: w2.peer.constVal"), ("const-local", "out1: { let a = w2; return a.constVal }")]
+ACCEPT_TWINS = [("const-link", "out1: w2.constPeer.intVal"), ("const-direct", "out1: w2.constVal + 1"), ("const-chain", "out1: w2.peer.constVal"), ("const-local", "out1: { let a = w2; return a.constVal }")]
 
 
 def gen_case(rng, params, index):
